@@ -150,15 +150,22 @@ ScriptSize(s) ==
     LET t == ScriptType(s)
     IN  IF t \in 0..1 THEN 21 ELSE IF t \in 2..5 THEN 33 ELSE SizeVLQ(FromInt(t)) + Len(s)
 
-\* decodeCompressedScriptSize over arbitrary bytes.  big: the size field says
-\* more than 2^21 bytes, which no string offered here has.
+\* decodeCompressedScriptSize over arbitrary bytes (strings shorter than 2^21
+\* bytes).  A script cannot be larger than the data that holds it: when the
+\* size field says more than Len(bs) bytes the answer is Len(bs) + 1 -- "more
+\* than is there" -- whatever the field holds (2^63, 2^64-1, ...), so that the
+\* caller's missing-data test fails and nothing is converted, added or sliced
+\* with a wrapped number.  (btcd before commit f6dd0b47 converted the field
+\* unbounded and panicked on such records; big marks those inputs.)
 ScriptSizeOf(bs) ==
     LET v == DecVLQ(bs)
     IN  IF v.size = 0 THEN [big |-> FALSE, n |-> 0]
-        ELSE IF Len(v.val) > 3 THEN [big |-> TRUE, n |-> 0]
+        ELSE IF Len(v.val) > 3 THEN [big |-> TRUE, n |-> Len(bs) + 1]
         ELSE LET t == ToInt(v.val)
-             IN  [big |-> FALSE,
-                  n |-> IF t \in 0..1 THEN 21 ELSE IF t \in 2..5 THEN 33 ELSE t - 6 + v.size]
+             IN  IF t \in 0..1 THEN [big |-> FALSE, n |-> 21]
+                 ELSE IF t \in 2..5 THEN [big |-> FALSE, n |-> 33]
+                 ELSE IF t - 6 > Len(bs) THEN [big |-> TRUE, n |-> Len(bs) + 1]
+                 ELSE [big |-> FALSE, n |-> t - 6 + v.size]
 
 \* decompressScript of a string that holds exactly ScriptSizeOf bytes
 DecompressScript(cs) ==
